@@ -45,6 +45,8 @@ type sigView struct {
 type filt struct{ sig, byteIdx, mask, length, off int }
 
 type obs struct {
+	editPanic     string // "<op kind>[-shared-enum]" when an edit operation panicked
+	editPanicMsg  string
 	nilEntries    int    // nil pointers found in the slices returned by Decode
 	orderBrokenBy string // first op after which a signal's byte order differed from the message's
 	brokenBy      string // first edit after which the layout was no longer well-formed ("" = never)
@@ -69,7 +71,13 @@ type world struct {
 	// first operation after which some signal of the layout did not carry the byte order of the
 	// message (checked after every operation, not only at the end)
 	orderBrokenBy string
-	trace         *bufio.Writer // per-op trace for the state-machine model (nil = off)
+	// an edit operation panicked: kind of the op (+ "-shared-enum"), panic text; the history stops there
+	editPanic    string
+	editPanicMsg string
+	// the history stops at the first edit that breaks the layout or panics: what is judged is the
+	// state right after that edit, nothing later can be blamed on it or hide behind it
+	stopped bool
+	trace   *bufio.Writer // per-op trace for the state-machine model (nil = off)
 }
 
 // traceOut: when set, the next world created records a trace (primary run of a case only)
@@ -94,6 +102,7 @@ func observe(w *world, payloads [][]byte) (o obs) {
 	sl := w.msg.SignalLayout()
 	o.brokenBy = w.brokenBy
 	o.orderBrokenBy = w.orderBrokenBy
+	o.editPanic, o.editPanicMsg = w.editPanic, w.editPanicMsg
 	o.msgBE = w.msg.ByteOrder() == acmelib.MessageByteOrderBigEndian
 	for _, s := range w.msg.Signals() { // layout order
 		o.view = append(o.view, sigView{w.ids[s.EntityID()], s.GetRelativeStartPos(), s.GetSize(),
@@ -207,14 +216,32 @@ func layoutClass(o obs, symptom string) string {
 	return symptom
 }
 
+// lsbAnchoredOverlap: the overlap of x's filter fx with fy is the recorded finding D08 exactly when
+// x has the D08 shape, fx is the LSB-anchored mask the code is known to produce for it
+// (decode_be_one_byte_spec) and the Motorola mask for the same signal would not touch fy
+func lsbAnchoredOverlap(x sigView, fx, fy filt) bool {
+	if !isD08(x) || x.size > 8 {
+		return false
+	}
+	t := x.start % 8
+	lsb := ((1 << uint(x.size)) - 1) << uint(t)
+	motorola := ((1 << uint(x.size)) - 1) << uint(8-t-x.size)
+	return fx.mask == lsb&0xff && fx.off == t && fx.length == x.size && motorola&fy.mask == 0
+}
+
 func sigInside(v sigView, nbits int) bool {
 	return v.start >= 0 && v.size >= 1 && v.size <= 64 && v.start+v.size <= nbits
 }
 
 func checkProps(o obs, payloads [][]byte, nbits int) []failure {
 	fails := []failure{}
+	if o.editPanic != "" {
+		// an edit operation of the public API panicked: nothing after it can be judged, and it is a
+		// failure by itself (classified by the operation; known only in the recorded shapes)
+		return []failure{{"c02-edit-op-panic-" + o.editPanic, o.editPanicMsg}}
+	}
 	if strings.HasPrefix(o.panicked, "history: ") {
-		return nil // an edit operation itself panicked: C01 / C06 territory, no layout to judge
+		return []failure{{"c02-harness-panic", o.panicked}}
 	}
 	// the byte order of the message is the byte order of every signal in its layout (the spec
 	// below reads the payload in the message's byte order)
@@ -307,7 +334,7 @@ func checkProps(o obs, payloads [][]byte, nbits int) []failure {
 				a, b := byID[f.sig], byID[g.sig]
 				if a.start < b.start+b.size && b.start < a.start+a.size {
 					cl = layoutClass(o, "c02-mask-overlap-signals-overlap") // the signals themselves overlap
-				} else if isD08(a) || isD08(b) {
+				} else if lsbAnchoredOverlap(a, f, g) || lsbAnchoredOverlap(b, g, f) {
 					cl = "c02-be-one-byte-lsb-anchored"
 				}
 				fails = append(fails, failure{cl, fmt.Sprintf("signals %d (start %d size %d) and %d (start %d size %d) share bits %08b of byte %d",
@@ -365,14 +392,31 @@ func runHistory(ops []string) *world {
 // applyOp executes one operation and records the first one that breaks the layout
 func applyOp(w *world, op string) {
 	f := strings.Fields(op)
-	if len(f) == 0 {
+	if len(f) == 0 || w.stopped {
 		return
 	}
-	shared := ""
-	if w.msg != nil && len(f) > 1 && strings.HasPrefix(f[0], "E") && f[0] != "EN" {
-		if e, err := strconv.Atoi(f[1]); err == nil && placedRefs(w, e) >= 2 {
-			shared = "-shared-enum"
+	// pre-state facts the verdict on this one edit is decided from
+	var preView []sigView
+	preWf := false
+	enumIdx, enumPre := -1, 0
+	refs := map[int]bool{}
+	if w.msg != nil {
+		preView = currentView(w)
+		preWf = wellFormed(preView, 8*w.msg.SizeByte())
+		if len(f) > 1 && strings.HasPrefix(f[0], "E") && f[0] != "EN" {
+			if e, err := strconv.Atoi(f[1]); err == nil && e >= 0 && e < len(w.enums) {
+				enumIdx, enumPre = e, w.enums[e].GetSize()
+				for _, sg := range w.msg.Signals() {
+					if es, err := sg.ToEnum(); err == nil && es.Enum() == w.enums[e] {
+						refs[w.ids[sg.EntityID()]] = true
+					}
+				}
+			}
 		}
+	}
+	shared := ""
+	if len(refs) >= 2 {
+		shared = "-shared-enum"
 	}
 	pre := "-"
 	if w.trace != nil && (f[0] == "AP" || f[0] == "IN") && len(f) > 1 {
@@ -383,9 +427,63 @@ func applyOp(w *world, op string) {
 			}
 		}
 	}
-	doOp(w, f)
-	if w.msg != nil && w.brokenBy == "" && !wellFormed(currentView(w), 8*w.msg.SizeByte()) {
-		w.brokenBy = f[0] + shared
+	func() {
+		defer func() {
+			if r := recover(); r != nil {
+				w.editPanic, w.editPanicMsg, w.stopped = f[0]+shared, fmt.Sprintf("%s panicked: %v", strings.Join(f, " "), r), true
+			}
+		}()
+		doOp(w, f)
+	}()
+	if w.stopped {
+		return
+	}
+	if w.msg != nil && preWf {
+		post := currentView(w)
+		if !wellFormed(post, 8*w.msg.SizeByte()) {
+			// this edit broke a well-formed layout: is it, by its values, an instance of a recorded finding?
+			known := false
+			if enumIdx >= 0 && len(post) == len(preView) {
+				enumPost := w.enums[enumIdx].GetSize()
+				delta := enumPost - enumPre
+				same, maxPush := true, 0
+				for i, v := range post {
+					p := preView[i]
+					if v.id != p.id {
+						same = false
+						break
+					}
+					if refs[v.id] {
+						if v.size != enumPost {
+							same = false
+						}
+					} else if v.size != p.size {
+						same = false
+					}
+					if v.start < p.start {
+						same = false
+					}
+					if v.start-p.start > maxPush {
+						maxPush = v.start - p.start
+					}
+				}
+				switch f[0] {
+				case "EM":
+					// D03: SetMinSize grows the referring signals in place, nothing is verified or moved
+					known = same && delta > 0 && len(refs) >= 1 && maxPush == 0
+				case "EA", "EU":
+					// D36: >= 2 placed signals on the enum, each grows by the enum's growth, followers
+					// are pushed right by at most that growth per referring signal, nothing else changes
+					known = same && delta > 0 && len(refs) >= 2 && maxPush <= len(refs)*delta
+				}
+			}
+			if known {
+				w.brokenBy = f[0] + shared
+			} else {
+				w.brokenBy = "unexpected-" + f[0] + shared
+			}
+			w.stopped = true
+		}
 	}
 	if w.msg != nil && w.orderBrokenBy == "" {
 		mbe := w.msg.ByteOrder() == acmelib.MessageByteOrderBigEndian
@@ -654,11 +752,11 @@ func (rc *recorder) record(cat string, o obs, payloads [][]byte, nbits int, ops 
 	rc.cases++
 	rc.decodes += len(payloads)
 	rc.hist[cat]++
-	if strings.HasPrefix(o.panicked, "history: ") {
-		rc.hist["edit-op-panicked(C01/C06)"]++
-	} else if !wellFormed(o.view, nbits) {
+	if o.editPanic != "" {
+		rc.hist["stopped-at-panicking-edit"]++
+	} else if o.brokenBy != "" {
 		rc.skippedWf++
-		rc.hist["not-well-formed(C01)"]++
+		rc.hist["stopped-at-layout-breaking-edit"]++
 	}
 	// non-trivial: a signal crossing a byte boundary, or more than one signal
 	nt := len(o.view) > 1
@@ -691,7 +789,15 @@ func (rc *recorder) record(cat string, o obs, payloads [][]byte, nbits int, ops 
 		sig := f.class
 		sops := ops
 		detail := f.detail
-		if strings.HasPrefix(f.class, "c02-layout-broken-by-") {
+		if strings.HasPrefix(f.class, "c02-edit-op-panic-") || f.class == "c02-harness-panic" {
+			sops = shrink(ops, f.class, payloadsFor)
+			so, sp, snb := safeRun(sops, payloadsFor)
+			for _, g := range checkProps(so, sp, snb) {
+				if g.class == f.class {
+					detail = g.detail
+				}
+			}
+		} else if strings.HasPrefix(f.class, "c02-layout-broken-by-") {
 			sops = shrink(ops, f.class, payloadsFor)
 			so, sp, snb := safeRun(sops, payloadsFor)
 			for _, g := range checkProps(so, sp, snb) {
@@ -777,16 +883,19 @@ func genHistory(r *rng) (ops []string) {
 	w := newWorld()
 	dead := false
 	do := func(op string) {
-		ops = append(ops, op)
 		if dead {
-			return
+			return // the history ends at the edit that broke the layout or panicked
 		}
+		ops = append(ops, op)
 		defer func() {
 			if recover() != nil {
 				dead = true
 			}
 		}()
 		applyOp(w, op)
+		if w.stopped {
+			dead = true
+		}
 	}
 	nbytes := 1 + r.below(8)
 	if r.below(6) == 0 {
@@ -1008,10 +1117,14 @@ func main() {
 		genExhaustive(rc, r, map[bool]int{false: 8, true: 32}[thorough])
 		genHistories(rc, r, map[bool]int{false: 4000, true: 1000000}[thorough])
 	}
-	rc.w.Flush()
-	fh.Close()
-	rc.tw.Flush()
-	th.Close()
+	// END markers: a truncated or half-written file must not read as a short clean run
+	fmt.Fprintf(rc.w, "END %d\n", rc.cases)
+	fmt.Fprintf(rc.tw, "END %d\n", rc.traced)
+	for _, e := range []error{rc.w.Flush(), fh.Close(), rc.tw.Flush(), th.Close()} {
+		if e != nil {
+			panic(e)
+		}
+	}
 	sf, err := os.Create(out + ".summary")
 	if err != nil {
 		panic(err)
